@@ -183,12 +183,12 @@ theorem u8_or80 (l : UInt8) (h : l.toNat < 0x80) : (l ||| 0x80) = UInt8.ofNat (l
   simpa using h2
 
 /-- `pushInt` pushes `CScriptNum::serialize` (for every magnitude an int64 can hold) -/
-theorem intBytes_eq_encode (v : Int) (hv : v.natAbs < 256 ^ 9) : intBytes v = ScriptNum.encode v := by
+theorem intBytes_eq_encode (v : Int) : intBytes v = ScriptNum.encode v := by
   unfold intBytes ScriptNum.encode natLE
   by_cases h0 : v = 0
   · simp [h0]
   · simp only [h0, ↓reduceIte]
-    rw [natLEAux_eq_absBytes 9 v.natAbs v.natAbs hv (Nat.lt_pow_self (by decide))]
+    rw [natLEAux_eq_absBytes v.natAbs v.natAbs v.natAbs (Nat.lt_pow_self (by decide)) (Nat.lt_pow_self (by decide))]
     cases hl : (ScriptNum.absBytes v.natAbs v.natAbs).getLast? with
     | none => rfl
     | some l =>
